@@ -48,6 +48,9 @@ CLAIMED = {
     "C16": ("runtime monitoring: boundary recorder on MultichainPolicyIteration.plan_on gated on `converged`; oracle = reference V* (gamma<1) / optimal multichain gain from Puterman's LP via scipy HiGHS (gamma=1) and exact evaluation (value or gain) of the returned stochastic policy",
             "Held-on-K-executions over generated discounted and average-reward MDPs (unichain, multichain, with absorbing states). Exploration: all-inputs property.",
             "trusts scipy.optimize.linprog and mon/ref/{mdp,gain}.py; tolerance 1e-6*scale (normal equations)", "§4 C16"),
+    "C19": ("runtime monitoring: boundary recorder on entropy_regularized_policy_iteration and the planner wrapper, gated on `converged`; oracle = soft Bellman fixed-point clauses (one-step look-ahead, prior-weighted softmax, log-sum-exp) with tolerances derived from the coded convergence test, plus the quantitative hard/soft bracket against a reference value iteration",
+            "Held-on-K-executions over generated tensors, weights (scalar / per-state), priors and flags. Exploration: all-inputs property.",
+            "float64; weight tensor is float32 by construction (term 2*2^-24*max|q/w| in the tolerance)", "§4 C19"),
 }
 
 PENDING_REASON = "check not built yet in this round (design in DESIGN.md §4); not claimed until its monitor exists and is silent on the unchanged tree"
